@@ -40,7 +40,7 @@ claim("C14", "reference-model monitor: analytic grid model vs real GridSpec on a
       _TB + " Cross-CRS polygon queries are densified so vertex-wise projection follows the true image.", "DESIGN.md 5/C14")
 
 claim("C01", "exception/result monitor over the enumerated product operation x CRS-tag pair x geometry kind, ground truth from generator labels (cross-checked with pyproj), shapely on raw shapes as reference",
-      "Quick: every combining operation x all 169 ordered CRS-tag pairs with sampled geometry kinds, n-ary streams with the odd operand at every position, BoundingBox and "
+      "Quick: every combining operation x all 289 ordered CRS-tag pairs (17 tags incl. four user-defined CRSs no authority lists) with sampled geometry kinds, n-ary streams with the odd operand at every position, BoundingBox and "
       "grid-compatible GeoBox operands; thorough: the full product over 11x11 geometry kinds (exhaustive: true). Mismatch must raise ValueError/CRSMismatchError before any "
       "result exists; equal CRSs (any spelling) must give the shapely result tagged with the first operand's CRS.",
       _TB + " Shapely/GEOS is trusted for the reference result; a generator (split) is consumed before judging.", "DESIGN.md 5/C01")
